@@ -66,6 +66,13 @@ def stage_worker(ctx):
             if ev.count(f"c{i}") != 1:
                 ctx.violation("worker:cleanup-count", f"clean-up {i} started {ev.count(f'c{i}')} times after a DB fault",
                               {"kind": "task", "task": t, "events": ev})
+        # the queue slot (and with it an exclusive task's lock on its FIFO) is given back only after the clean-ups have run
+        last_done = max([k for k, e_ in enumerate(ev) if e_.startswith("D:")], default=-1)
+        late = [e_ for e_ in ev[last_done + 1:] if e_.startswith("c")] if last_done >= 0 else []
+        if late:
+            ctx.violation("worker:slot-before-cleanup", f"after a DB fault the task's queue slot was released (task_done) before its clean-up "
+                          f"actions {late} ran: the next task of an exclusive FIFO could start while this one was still cleaning up",
+                          {"kind": "task", "task": t, "events": ev})
         ndone = sum(1 for e in ev if e.startswith("D:"))
         nsteps = sum(1 for e in ev if e.startswith("P:")) + 1
         if ndone != nsteps:
